@@ -36,7 +36,7 @@ type Profile struct {
 	NoRedundantPar                                                                                 bool
 	PoryKeys                                                                                       []string
 	TextPool                                                                                       []string
-	ASCIINames, NoEmptyArgs, SingleTokenOperands, MultiTokenCases                                  bool
+	NoSharedResultVar, ASCIINames, NoEmptyArgs, SingleTokenOperands, MultiTokenCases                                  bool
 	PFallback                                                                                      float64 // probability that a poryswitch has a `_` case (default 0.5)
 	WCondGoto                                                                                      int     // weight of user-written goto_if_set/goto_if_unset commands (targets: labels of the same script)
 	PCall                                                                                          float64 // probability that a command statement is `call(<external script>)`
@@ -253,6 +253,9 @@ func (g *Gen) Cmd() *Cmd {
 		return c
 	}
 	n := g.R.IntN(4)
+	if g.R.IntN(25) == 0 {
+		n = 5 + g.R.IntN(8) // long argument lists
+	}
 	for i := 0; i < n; i++ {
 		switch {
 		case g.chance(g.P.PTextArg):
@@ -341,6 +344,15 @@ func (g *Gen) autoCmdReuse() (*Cmd, string, bool) {
 func (g *Gen) autoCmdFresh() (*Cmd, string) {
 	c := g.Cmd()
 	c.Name = g.Name("av")
+	if g.lastAuto != nil && g.R.IntN(8) == 0 {
+		// a command whose name differs from an earlier AutoVar command's only in letter case: a command of its own,
+		// with its own configuration
+		if v := strings.ToUpper(g.lastAuto.Name[:1]) + g.lastAuto.Name[1:]; v != g.lastAuto.Name {
+			if _, taken := g.Prog.AutoVars[v]; !taken {
+				c.Name = v
+			}
+		}
+	}
 	var varName string
 	// argument position form needs a plain single-token argument
 	plainIdx := -1
@@ -369,6 +381,10 @@ func (g *Gen) autoCmdFresh() (*Cmd, string) {
 		varName = v
 	} else {
 		varName = g.Name("VAR_A")
+		if !g.P.NoSharedResultVar && strings.HasPrefix(g.lastAutoVar, "VAR_A") && g.R.IntN(3) == 0 {
+			// several commands report through one var (the shipped config uses VAR_RESULT for nearly all of them)
+			varName = g.lastAutoVar
+		}
 		g.Prog.AutoVars[c.Name] = AutoVar{VarName: varName, ArgPos: -1}
 	}
 	return c, varName
@@ -421,6 +437,11 @@ func (g *Gen) LeafCond() *Leaf {
 				g.prevLeaves[kind] = append(g.prevLeaves[kind], l)
 			}
 		}()
+	}
+	if !g.P.SingleTokenOperands && l.Kind != LeafAuto && g.R.IntN(14) == 0 {
+		// a raw number as operand (var(0x8004), flag(0x20 + 1), defeated(3)); unique per leaf
+		g.n++
+		l.Operand = []string{fmt.Sprintf("0x%X", 0x4000+g.n)}
 	}
 	if !g.P.SingleTokenOperands && g.R.IntN(8) == 0 {
 		// an operand of several tokens (everything up to the closing parenthesis belongs to it)
@@ -651,6 +672,9 @@ func (g *Gen) ifStmt() *If {
 	arms := 1
 	if g.P.MaxElif > 0 {
 		arms += g.R.IntN(g.P.MaxElif + 1)
+		if g.R.IntN(12) == 0 {
+			arms += 2 + g.R.IntN(3) // a long chain: elif arms that are neither the first nor the last
+		}
 	}
 	for i := 0; i < arms; i++ {
 		c := g.cond()
